@@ -23,6 +23,9 @@ FIELDS = [
     dict(name="l_union", t=T("union", a=INT, b=STR), req=False, d=NODEF, src="int | str"),
     dict(name="m_strreqdef", t=STR, req=True, d=V("str", v="dflt"), src='str! = "dflt"'),
     dict(name="n_addrreq", t=T("named", n="Addr"), req=True, d=NODEF, src="Addr!"),
+    # unions with a member that has contents of its own: the contents count, not only the outer shape
+    dict(name="o_unionlist", t=T("union", a=T("list", t=INT), b=STR), req=False, d=NODEF, src="List[int] | str"),
+    dict(name="p_unionaddr", t=T("union", a=T("named", n="Addr"), b=STR), req=True, d=NODEF, src="Addr | str!"),
 ]
 ADDR = [dict(name="city", t=STR, req=True, d=NODEF, src="str!"), dict(name="zip", t=INT, req=False, d=NODEF, src="int")]
 OBJ = lambda **kw: V("obj", f=[{"name": k, "v": v} for k, v in kw.items()])
